@@ -25,13 +25,7 @@ def _strip(model_out: str) -> str:
     return model_out.replace("!", "")
 
 
-def _values_too_large(out: str) -> bool:
-    res = out.split("|")[0]
-    for r in res.split(";"):
-        if r.startswith("ok:"):
-            if any(abs(int(x)) >= rs.EXACT_LIMIT for x in r[3:].split("#")[0].split(",") if x):
-                return True
-    return False
+_values_too_large = rs.values_too_large
 
 
 def canon_equal(case: Case, impl_out: str, model_out: str) -> bool:
